@@ -58,7 +58,7 @@ import os as _os_dbg
 
 TRACE_SPEC_FUNCTIONS = {
     "emitted", "n_emitted", "nogap", "count_cls", "last_is", "exists_cls", "forall_emitted", "yielded", "trace_any", "trace_all",
-    "after_gap", "n_after_gap", "suffix_after", "call_result", "net_written", "net_ops", "call_index", "call_args", "call_time", "clock", "clock0",
+    "after_gap", "n_after_gap", "suffix_after", "call_result", "net_written", "net_ops", "call_index", "call_args", "call_time", "clock", "clock0", "count_calls", "call_raised",
 }
 
 
@@ -614,6 +614,8 @@ class RulesMixin:
                     eobj.fields[f_] = self.make_symbolic(t_, f"{ecls.__name__}.{f_}")
             if suspends and self.unit_self is not None:
                 self.segment_start = self.snapshot_env({"self": self.unit_self})
+            # contracts of the caller can speak about what a contract call raised: call_raised(name)
+            self.traces.setdefault("raised", []).append((fc.qualname.split(":")[1], eobj))
             raise PyRaise(eobj, f"{fc.qualname} (contract) called at {fr.where()}")
         result = None
         if fc.returns:
